@@ -280,7 +280,7 @@ func replay(r *runner) {
 			pedersenReplay(r, c, f[0], idx)
 		case strings.HasPrefix(f[0], "elgamal-"):
 			elgamalReplay(r, c, f[0], idx)
-		case strings.HasPrefix(f[0], "intcom-"), strings.HasPrefix(f[0], "inteq-"):
+		case strings.HasPrefix(f[0], "intcom-"), strings.HasPrefix(f[0], "inteq-"), strings.HasPrefix(f[0], "intbound-"):
 			intcomReplay(r, c, f[0], idx)
 		case f[0] == "extract":
 			extractCase(r, idx)
